@@ -206,6 +206,17 @@ fn ladder_cfg(rng: &mut Rng, k: usize) -> BuildCfg {
         d.size = 0;
         cfg.files.push(d);
     }
+    // a file whose name extends a sibling directory's name with a character that sorts below '/'
+    // (byte order of the path strings and component order of the paths disagree for these)
+    for (j, (a, b)) in [("sib.conf", "sib/inner.conf"), ("sib-1", "sib/zz"), ("sib x", "sib/a"), ("sib+", "sib/+")].into_iter().enumerate() {
+        for (name, size) in [(a, 21 + j), (b, 37 + j)] {
+            let mut f = cfg.files[1].clone();
+            f.dest = format!("/opt/ladder/{k}/{name}");
+            f.size = size;
+            f.content_seed = rng.next();
+            cfg.files.push(f);
+        }
+    }
     // a mode given as permission bits only (no file-type bits): still a file with content and a digest
     {
         let mut f = cfg.files[1].clone();
@@ -379,6 +390,14 @@ fn run(ctx: &Ctx, rep: &Report) {
             }
         }
         cfg.large_files = i % 11 == 10;
+        // every other configuration is built right after a with_file() call that FAILED on this thread
+        // (a destination without a leading '/'): nothing of a refused file may leak into the next build
+        if i % 2 == 0 {
+            let refused = guard(|| rpm::PackageBuilder::new("refused", "1", "MIT", "noarch", "x").with_file(ctx.asset("Cargo.toml"), rpm::FileOptions::new("no/leading/slash")).is_err());
+            if !matches!(refused, Ok(true)) {
+                rep.note("the poisoning with_file() call did not fail as planned");
+            }
+        }
         let dir = base.join(format!("c{i}"));
         let mut local = BTreeMap::new();
         let w = |label: &str| json!({"label": label, "cfg": cfg});
